@@ -126,6 +126,8 @@ mod transactions;
 mod tree_store;
 mod tuple_types;
 mod types;
+#[cfg(redb_verif)]
+pub mod verif_knobs;
 
 // core cannot tell whether the current thread is unwinding, and redb's Drop impls consult that in
 // opposite ways, so neither constant is safe to assume. Restricted to panic = "abort" instead,
